@@ -6,7 +6,7 @@ from pyvc.dsl import REGISTRY
 from pyvc.verify import verify_function
 from pyvc.replay import ModelView
 from pyvc.loader import lookup
-t=[k for k in REGISTRY if sys.argv[1] in k][0]
+cands=[k for k in REGISTRY if k.endswith(sys.argv[1])] or [k for k in REGISTRY if sys.argv[1] in k]; t=cands[0]
 c=REGISTRY[t]
 r=verify_function(c)
 print(r.status, r.reason[:2000], r.counts())
